@@ -115,12 +115,12 @@ theorem strip_lineHead (hP : PrintOK P) (F : BibtexFormat) (hF : FormatOK F) (co
   · exact allSpace_append P (allSpace_single hP.nlSpace) (allSpace_blank hP hF.indent)
   · exact allSpace_append P (allSpace_replicate_space hP _) (allSpace_single hP.spSpace)
 
-theorem flatten_valToks (v : Str) (hv : CleanVal P v) : flatten (valToks P v) = ' ' :: '{' :: (v ++ ['}']) := by
-  simp [valToks, SPt, LB, RB, flatten, Tok.lit]
-  have := (vtOf_spec hv).2.1
-  simpa [flatten] using this
+theorem flatten_valToks (v : Str) (hv : EncBal P v) : flatten (valToks P v) = ' ' :: '{' :: (v ++ ['}']) := by
+  have := (sevtOf_spec hv).2.1
+  simp [valToks, SPt, flatten, Tok.lit] at this ⊢
+  exact this
 
-theorem strip_valToks (hP : PrintOK P) (v : Str) (hv : CleanVal P v) (extra : List Tok)
+theorem strip_valToks (hP : PrintOK P) (v : Str) (hv : EncBal P v) (extra : List Tok)
     (he : extra = [] ∨ extra = [NLt]) :
     strip P (flatten (valToks P v ++ extra)) = '{' :: (v ++ ['}']) := by
   rw [flatten_append, flatten_valToks v hv]
@@ -131,6 +131,42 @@ theorem strip_valToks (hP : PrintOK P) (v : Str) (hv : CleanVal P v) (extra : Li
   have := strip_sandwich [' '] ('{' :: (v ++ ['}'])) (flatten extra) (allSpace_single hP.spSpace) hx
     (strip_braced hP v)
   simpa using this
+
+theorem flatten_fvalToks (v : Str) (hv : EncVal P v) : flatten (fvalToks P v) = ' ' :: '{' :: (v ++ ['}']) := by
+  have := (evtOf_spec hv).2.1
+  simp [fvalToks, SPt, flatten, Tok.lit] at this ⊢
+  exact this
+
+theorem strip_fvalToks (hP : PrintOK P) (v : Str) (hv : EncVal P v) (extra : List Tok)
+    (he : extra = [] ∨ extra = [NLt]) :
+    strip P (flatten (fvalToks P v ++ extra)) = '{' :: (v ++ ['}']) := by
+  rw [flatten_append, flatten_fvalToks v hv]
+  have hx : allSpace P (flatten extra) := by
+    rcases he with rfl | rfl
+    · simp [flatten, allSpace]
+    · simpa [flatten, NLt, Tok.lit] using allSpace_single hP.nlSpace
+  have := strip_sandwich [' '] ('{' :: (v ++ ['}'])) (flatten extra) (allSpace_single hP.spSpace) hx
+    (strip_braced hP v)
+  simpa using this
+
+theorem isValue_append {a b : List Tok} (ha : IsValue a) (hb : IsValue b) : IsValue (a ++ b) := by
+  induction ha with
+  | nil => simpa using hb
+  | plain t ts ht _ ih => exact IsValue.plain t _ ht ih
+  | braced l r x y hx _ ih =>
+    have := IsValue.braced l r x (y ++ b) hx ih
+    simpa using this
+  | quoted l r x y hx _ ih =>
+    have := IsValue.quoted l r x (y ++ b) hx ih
+    simpa using this
+
+theorem isValue_fvalToks (v : Str) (hv : EncVal P v) (extra : List Tok) (he : extra = [] ∨ extra = [NLt]) :
+    IsValue (fvalToks P v ++ extra) := by
+  have hx : IsValue extra := by
+    rcases he with rfl | rfl
+    · exact IsValue.nil
+    · exact IsValue.plain NLt [] rfl IsValue.nil
+  exact IsValue.plain SPt _ rfl (isValue_append (evtOf_spec hv).1 hx)
 
 /-! ### the derivation of a block is well formed -/
 
@@ -189,18 +225,8 @@ theorem classify_comment (hP : PrintOK P) : (classify P "@comment".toList).1 = .
   have h1 : startsWith "@comment".toList "@comment".toList = true := by decide
   rw [classify_of_lower _ _ hl, h1]; rfl
 
-theorem isBal_valToks (v : Str) (hv : CleanVal P v) : IsBal (valToks P v) := by
-  have := IsBal.grp ['{'] ['}'] (vtOf P v) [] (vtOf_spec hv).1 IsBal.nil
-  exact IsBal.plain SPt _ rfl (by simpa [valToks, LB, RB] using this)
-
-theorem isValue_valToks (v : Str) (hv : CleanVal P v) (extra : List Tok) (he : extra = [] ∨ extra = [NLt]) :
-    IsValue (valToks P v ++ extra) := by
-  have hx : IsValue extra := by
-    rcases he with rfl | rfl
-    · exact IsValue.nil
-    · exact IsValue.plain NLt [] rfl IsValue.nil
-  have := IsValue.braced ['{'] ['}'] (vtOf P v) extra (vtOf_spec hv).1 hx
-  exact IsValue.plain SPt _ rfl (by simpa [valToks, LB, RB] using this)
+theorem isBal_valToks (v : Str) (hv : EncBal P v) : IsBal (valToks P v) :=
+  IsBal.plain SPt _ rfl (sevtOf_spec hv).1
 
 theorem fieldSrcs_wf (F : BibtexFormat) (col : Nat) (fs : List Field) (hfs : ∀ f ∈ fs, FieldOK P f) :
     ∀ s ∈ fieldSrcs P F col fs, allPlain s.key ∧ IsValue s.val := by
@@ -213,7 +239,7 @@ theorem fieldSrcs_wf (F : BibtexFormat) (col : Nat) (fs : List Field) (hfs : ∀
     · obtain ⟨v, hv, hclean⟩ := (hfs f List.mem_cons_self).value
       refine ⟨by simp [allPlain, NLt, isPlainTok], ?_⟩
       simp only [hv, strOf]
-      apply isValue_valToks v hclean
+      apply isValue_fvalToks v hclean
       by_cases h : (fs.isEmpty && !F.trailingComma) = true <;> simp [h]
     · exact ih (fun g hg => hfs g (List.mem_cons_of_mem _ hg)) s hs
 
@@ -264,9 +290,9 @@ theorem expFields_content (hP : PrintOK P) (F : BibtexFormat) (hF : FormatOK F) 
       have : flatten [NLt, .text (lineHead F col f.key)] = '\n' :: lineHead F col f.key := by
         simp [flatten, NLt, Tok.lit]
       rw [this]; exact strip_lineHead hP F hF col f.key (hfs f List.mem_cons_self).keyStrip
-    have hval : strip P (flatten (valToks P v ++ (if (fs.isEmpty && !F.trailingComma) = true then [NLt] else []))) =
+    have hval : strip P (flatten (fvalToks P v ++ (if (fs.isEmpty && !F.trailingComma) = true then [NLt] else []))) =
         '{' :: (v ++ ['}']) := by
-      apply strip_valToks hP v hclean
+      apply strip_fvalToks hP v hclean
       by_cases h : (fs.isEmpty && !F.trailingComma) = true <;> simp [h]
     have hs : strOf f.value = v := by rw [hv]; rfl
     have hcons : encFields (f :: fs) = { f with value := .str ('{' :: strOf f.value ++ ['}']) } :: encFields fs := rfl
@@ -317,13 +343,13 @@ theorem render_cons (F : BibtexFormat) (col : Nat) (b : Block) (r : List Block) 
 /-- what the junk text collected since the last block denotes: nothing (white space), or one
 free-text comment (and then the next block is not another free-text comment) -/
 def JunkState (P : PyChars) (pre : Str) (L : List Block) (cs : List Content) : Prop :=
-  (allSpace P pre ∧ cs = []) ∨
+  (allSpace P pre ∧ '@' ∉ pre ∧ cs = []) ∨
   (strip P pre ≠ [] ∧ cs = [.impl (strip P pre)] ∧ ∀ b r, L = b :: r → isImpl b = false)
 
 theorem junk_content (pre : Str) (L : List Block) (cs : List Content) (h : JunkState P pre L cs) (line : Int) :
     (expJunk P line (lexFrom P false pre)).map contentOf = cs := by
   simp only [expJunk, flatten_lexFrom]
-  rcases h with ⟨hsp, rfl⟩ | ⟨hne, rfl, _⟩
+  rcases h with ⟨hsp, _, rfl⟩ | ⟨hne, rfl, _⟩
   · simp [strip_allSpace pre hsp]
   · have : (strip P pre).isEmpty = false := by simpa using hne
     simp [this, contentOf]
@@ -354,7 +380,7 @@ theorem allSpace_nl_sep (hP : PrintOK P) (F : BibtexFormat) (hF : FormatOK F) (r
 `pre ++ render L` lexes to junk followed by one well-formed source block (and junk) per written
 block, and the blocks this derivation denotes have the content of `L` with enclosed values. -/
 theorem doc_claim (hP : PrintOK P) (F : BibtexFormat) (hF : FormatOK F) (col : Nat) (L : List Block) :
-    ∀ (pre : Str) (cs : List Content), (∀ b ∈ L, BlockOK P b) → NoAdjImpl L → '@' ∉ pre →
+    ∀ (pre : Str) (cs : List Content), (∀ b ∈ L, BlockOK P b) → NoAdjImpl L → noStart P pre = true →
       JunkState P pre L cs →
       ∃ head items, IsJunk head ∧ (∀ bj ∈ items, bj.1.WF P ∧ IsJunk bj.2) ∧
         lexFrom P false (pre ++ render F col L) = head ++ itemsToks items ∧
@@ -363,7 +389,7 @@ theorem doc_claim (hP : PrintOK P) (F : BibtexFormat) (hF : FormatOK F) (col : N
   induction L with
   | nil =>
     intro pre cs _ _ hat hst
-    refine ⟨lexFrom P false pre, [], isJunk_lex false pre hat, (by intro bj hbj; cases hbj), (by simp [render, itemsToks]), ?_⟩
+    refine ⟨lexFrom P false pre, [], isJunk_lex_noStart false pre hat, (by intro bj hbj; cases hbj), (by simp [render, itemsToks]), ?_⟩
     intro line line'
     simp [expItems, junk_content pre [] cs hst line]
   | cons b rest ih =>
@@ -376,20 +402,18 @@ theorem doc_claim (hP : PrintOK P) (F : BibtexFormat) (hF : FormatOK F) (col : N
       match b, hb, hi with
       | .live (.impl c l r m), hb, _ =>
         obtain ⟨hcne, hcs, hcat⟩ := hb
-        have hst1 : allSpace P pre ∧ cs = [] := by
+        have hst1 : allSpace P pre ∧ '@' ∉ pre ∧ cs = [] := by
           rcases hst with h | ⟨_, _, h⟩
           · exact h
           · have := h _ _ rfl; simp [isImpl] at this
-        obtain ⟨hsp, rfl⟩ := hst1
+        obtain ⟨hsp, hnat, rfl⟩ := hst1
         have hstrip : strip P (pre ++ (c ++ ('\n' :: sepIf F rest))) = c :=
           strip_sandwich pre c _ hsp (allSpace_nl_sep hP F hF rest) hcs
-        have hat' : '@' ∉ pre ++ (c ++ ('\n' :: sepIf F rest)) := by
+        have hat' : noStart P (pre ++ (c ++ ('\n' :: sepIf F rest))) = true := by
+          rw [noStart_prefix pre _ hnat]
+          refine noStart_append_nl hP.nlWord c (sepIf F rest) hcat (noStart_of_not_mem _ ?_)
           intro h
-          rcases List.mem_append.mp h with h | h
-          · exact hat h
-          · rcases List.mem_append.mp h with h | h
-            · exact hcat h
-            · exact not_at_sep F hF rest h
+          exact not_at_sep F hF rest (List.mem_cons_of_mem _ h)
         have hnext : ∀ b2 r2, rest = b2 :: r2 → isImpl b2 = false := by
           intro b2 r2 hr
           subst hr
@@ -407,9 +431,10 @@ theorem doc_claim (hP : PrintOK P) (F : BibtexFormat) (hF : FormatOK F) (col : N
     · -- a block: the pending junk ends here, new junk starts after its closing brace
       have hni : isImpl b = false := by simpa using hi
       obtain ⟨head2, items2, hj2, hw2, hlex2, hcont2⟩ := ih ('\n' :: sepIf F rest) [] hrest hadj'
-        (not_at_sep F hF rest) (Or.inl ⟨allSpace_nl_sep hP F hF rest, rfl⟩)
+        (noStart_of_not_mem _ (not_at_sep F hF rest))
+        (Or.inl ⟨allSpace_nl_sep hP F hF rest, not_at_sep F hF rest, rfl⟩)
       obtain ⟨hwf, _⟩ := srcOf_wf hP F hF col b hb hni
-      refine ⟨lexFrom P false pre, (srcOf P F col b, head2) :: items2, isJunk_lex false pre hat, ?_, ?_, ?_⟩
+      refine ⟨lexFrom P false pre, (srcOf P F col b, head2) :: items2, isJunk_lex_noStart false pre hat, ?_, ?_, ?_⟩
       · intro bj hbj
         rcases List.mem_cons.mp hbj with rfl | hbj
         · exact ⟨hwf, hj2⟩
@@ -436,7 +461,8 @@ theorem split_render (hP : PrintOK P) (F : BibtexFormat) (hF : FormatOK F) (col 
     (hbs : ∀ b ∈ L, BlockOK P b) (hadj : NoAdjImpl L) :
     ∃ E, split P (render F col L) = .ok E ∧ E.map contentOf = L.map encContent := by
   obtain ⟨head, items, hj, hw, hlex, hcont⟩ := doc_claim hP F hF col L ['\n'] [] hbs hadj
-    (by intro h; simp at h) (Or.inl ⟨allSpace_single hP.nlSpace, rfl⟩)
+    (noStart_of_not_mem _ (by intro h; simp at h))
+    (Or.inl ⟨allSpace_single hP.nlSpace, by intro h; simp at h, rfl⟩)
   let d : Doc := ⟨head, items⟩
   refine ⟨d.expected P (-1), ?_, ?_⟩
   · unfold split lex
